@@ -26,6 +26,8 @@ func main() {
 	switch os.Args[1] {
 	case "rslquery":
 		err = fam.RSLQuery(*scn, *out, *seed, *n)
+	case "delegations":
+		err = fam.Delegations(*scn, *out, *seed, *n)
 	case "signatures":
 		err = fam.Signatures(*scn, *out, *seed, *n)
 	case "faults":
